@@ -17,16 +17,19 @@ Inductive rkind :=
 | RRetry (d : decision) (* read/write timeout, unavailable, overloaded, bootstrapping, truncate, server error,
                            ConnectionException, ConnectionShutdown: the retry policy is consulted and answers d *)
 | ROther                (* any other ErrorMessage / Exception: becomes the final exception *)
+| RSchema               (* ResultMessage kind SCHEMA_CHANGE: refresh_schema_and_set_result is handed to the executor *)
 | RSetKs                (* ResultMessage kind SET_KEYSPACE (answer to USE): Session._set_keyspace_for_all_pools is started *)
 | RJunk.                (* a message that is neither a result nor an error *)
 Inductive tkind := TSpec | TTimeout (n : nat).   (* _on_speculative_execute | _on_timeout(_attempts = n) *)
 Record timer := mkTimer { tk : tkind; due : Z; cancelled : bool; fired : bool }.
-Record attempt := mkAtt { ahost : Z; aopen : bool }.   (* aopen: the callback is still registered in connection._requests *)
+Record attempt := mkAtt { ahost : Z; aopen : bool; astale : bool }.
+(* aopen: the callback is still registered in connection._requests; astale: sent for an earlier page fetch (its page number
+   differs from self._page_no), so _set_result_of_page drops its answer *)
 Record pair := mkPair { cbs : list Z; ebs : list Z }.  (* values the callback / the errback was invoked with *)
 
 (* outcome values: results 1 = None (VOID / IGNORE), 10 + a = the rows answered to attempt a;
    errors 1 = OperationTimedOut, 2 = OperationTimedOut("Connection defunct by heartbeat"), 3 = NoHostAvailable,
-   4 = ConnectionException("Failed to set keyspace on all hosts"), 10 + a = the error answered to attempt a *)
+   4 = ConnectionException("Failed to set keyspace on all hosts"), 5 = ConnectionShutdown("Session is shut down ..."), 10 + a = the error answered to attempt a *)
 
 Record state := mkState {
   plan : list Z;   (* remaining query plan (the iterator self.query_plan) *)
@@ -54,54 +57,60 @@ Record state := mkState {
   results : list (Z * Z);   (* ghost: what result() returned (0,v) / raised (1,e), in call order *)
   chains : list (list Z * bool);   (* keyspace propagations started by SET_KEYSPACE answers (Session._set_keyspace_for_all_pools): (pools that have not reported yet, an error was reported) *)
   swallowed : Z;   (* exceptions that escaped a callback into the reactor / executor (always 0 in the model; the harness counts them) *)
+  shut : bool;   (* environment: session.is_shutdown (Session.submit then runs nothing and returns None) *)
+  refreshes : nat;   (* queued refresh_schema_and_set_result tasks (after SCHEMA_CHANGE answers) *)
 }.
 Definition set_plan (x : list Z) (s : state) : state :=
-  mkState x (attempts s) (cur_host s) (cur_conn s) (cur_req s) (retries s) (timers s) (cur_timer s) (specs s) (fres s) (fexc s) (event s) (pairs s) (paging s) (start s) (pstart s) (timeout s) (now s) (queue s) (pools s) (started s) (tfired s) (results s) (chains s) (swallowed s).
+  mkState x (attempts s) (cur_host s) (cur_conn s) (cur_req s) (retries s) (timers s) (cur_timer s) (specs s) (fres s) (fexc s) (event s) (pairs s) (paging s) (start s) (pstart s) (timeout s) (now s) (queue s) (pools s) (started s) (tfired s) (results s) (chains s) (swallowed s) (shut s) (refreshes s).
 Definition set_attempts (x : list attempt) (s : state) : state :=
-  mkState (plan s) x (cur_host s) (cur_conn s) (cur_req s) (retries s) (timers s) (cur_timer s) (specs s) (fres s) (fexc s) (event s) (pairs s) (paging s) (start s) (pstart s) (timeout s) (now s) (queue s) (pools s) (started s) (tfired s) (results s) (chains s) (swallowed s).
+  mkState (plan s) x (cur_host s) (cur_conn s) (cur_req s) (retries s) (timers s) (cur_timer s) (specs s) (fres s) (fexc s) (event s) (pairs s) (paging s) (start s) (pstart s) (timeout s) (now s) (queue s) (pools s) (started s) (tfired s) (results s) (chains s) (swallowed s) (shut s) (refreshes s).
 Definition set_cur_host (x : option Z) (s : state) : state :=
-  mkState (plan s) (attempts s) x (cur_conn s) (cur_req s) (retries s) (timers s) (cur_timer s) (specs s) (fres s) (fexc s) (event s) (pairs s) (paging s) (start s) (pstart s) (timeout s) (now s) (queue s) (pools s) (started s) (tfired s) (results s) (chains s) (swallowed s).
+  mkState (plan s) (attempts s) x (cur_conn s) (cur_req s) (retries s) (timers s) (cur_timer s) (specs s) (fres s) (fexc s) (event s) (pairs s) (paging s) (start s) (pstart s) (timeout s) (now s) (queue s) (pools s) (started s) (tfired s) (results s) (chains s) (swallowed s) (shut s) (refreshes s).
 Definition set_cur_conn (x : option Z) (s : state) : state :=
-  mkState (plan s) (attempts s) (cur_host s) x (cur_req s) (retries s) (timers s) (cur_timer s) (specs s) (fres s) (fexc s) (event s) (pairs s) (paging s) (start s) (pstart s) (timeout s) (now s) (queue s) (pools s) (started s) (tfired s) (results s) (chains s) (swallowed s).
+  mkState (plan s) (attempts s) (cur_host s) x (cur_req s) (retries s) (timers s) (cur_timer s) (specs s) (fres s) (fexc s) (event s) (pairs s) (paging s) (start s) (pstart s) (timeout s) (now s) (queue s) (pools s) (started s) (tfired s) (results s) (chains s) (swallowed s) (shut s) (refreshes s).
 Definition set_cur_req (x : option nat) (s : state) : state :=
-  mkState (plan s) (attempts s) (cur_host s) (cur_conn s) x (retries s) (timers s) (cur_timer s) (specs s) (fres s) (fexc s) (event s) (pairs s) (paging s) (start s) (pstart s) (timeout s) (now s) (queue s) (pools s) (started s) (tfired s) (results s) (chains s) (swallowed s).
+  mkState (plan s) (attempts s) (cur_host s) (cur_conn s) x (retries s) (timers s) (cur_timer s) (specs s) (fres s) (fexc s) (event s) (pairs s) (paging s) (start s) (pstart s) (timeout s) (now s) (queue s) (pools s) (started s) (tfired s) (results s) (chains s) (swallowed s) (shut s) (refreshes s).
 Definition set_retries (x : Z) (s : state) : state :=
-  mkState (plan s) (attempts s) (cur_host s) (cur_conn s) (cur_req s) x (timers s) (cur_timer s) (specs s) (fres s) (fexc s) (event s) (pairs s) (paging s) (start s) (pstart s) (timeout s) (now s) (queue s) (pools s) (started s) (tfired s) (results s) (chains s) (swallowed s).
+  mkState (plan s) (attempts s) (cur_host s) (cur_conn s) (cur_req s) x (timers s) (cur_timer s) (specs s) (fres s) (fexc s) (event s) (pairs s) (paging s) (start s) (pstart s) (timeout s) (now s) (queue s) (pools s) (started s) (tfired s) (results s) (chains s) (swallowed s) (shut s) (refreshes s).
 Definition set_timers (x : list timer) (s : state) : state :=
-  mkState (plan s) (attempts s) (cur_host s) (cur_conn s) (cur_req s) (retries s) x (cur_timer s) (specs s) (fres s) (fexc s) (event s) (pairs s) (paging s) (start s) (pstart s) (timeout s) (now s) (queue s) (pools s) (started s) (tfired s) (results s) (chains s) (swallowed s).
+  mkState (plan s) (attempts s) (cur_host s) (cur_conn s) (cur_req s) (retries s) x (cur_timer s) (specs s) (fres s) (fexc s) (event s) (pairs s) (paging s) (start s) (pstart s) (timeout s) (now s) (queue s) (pools s) (started s) (tfired s) (results s) (chains s) (swallowed s) (shut s) (refreshes s).
 Definition set_cur_timer (x : option nat) (s : state) : state :=
-  mkState (plan s) (attempts s) (cur_host s) (cur_conn s) (cur_req s) (retries s) (timers s) x (specs s) (fres s) (fexc s) (event s) (pairs s) (paging s) (start s) (pstart s) (timeout s) (now s) (queue s) (pools s) (started s) (tfired s) (results s) (chains s) (swallowed s).
+  mkState (plan s) (attempts s) (cur_host s) (cur_conn s) (cur_req s) (retries s) (timers s) x (specs s) (fres s) (fexc s) (event s) (pairs s) (paging s) (start s) (pstart s) (timeout s) (now s) (queue s) (pools s) (started s) (tfired s) (results s) (chains s) (swallowed s) (shut s) (refreshes s).
 Definition set_specs (x : list Z) (s : state) : state :=
-  mkState (plan s) (attempts s) (cur_host s) (cur_conn s) (cur_req s) (retries s) (timers s) (cur_timer s) x (fres s) (fexc s) (event s) (pairs s) (paging s) (start s) (pstart s) (timeout s) (now s) (queue s) (pools s) (started s) (tfired s) (results s) (chains s) (swallowed s).
+  mkState (plan s) (attempts s) (cur_host s) (cur_conn s) (cur_req s) (retries s) (timers s) (cur_timer s) x (fres s) (fexc s) (event s) (pairs s) (paging s) (start s) (pstart s) (timeout s) (now s) (queue s) (pools s) (started s) (tfired s) (results s) (chains s) (swallowed s) (shut s) (refreshes s).
 Definition set_fres (x : option Z) (s : state) : state :=
-  mkState (plan s) (attempts s) (cur_host s) (cur_conn s) (cur_req s) (retries s) (timers s) (cur_timer s) (specs s) x (fexc s) (event s) (pairs s) (paging s) (start s) (pstart s) (timeout s) (now s) (queue s) (pools s) (started s) (tfired s) (results s) (chains s) (swallowed s).
+  mkState (plan s) (attempts s) (cur_host s) (cur_conn s) (cur_req s) (retries s) (timers s) (cur_timer s) (specs s) x (fexc s) (event s) (pairs s) (paging s) (start s) (pstart s) (timeout s) (now s) (queue s) (pools s) (started s) (tfired s) (results s) (chains s) (swallowed s) (shut s) (refreshes s).
 Definition set_fexc (x : option Z) (s : state) : state :=
-  mkState (plan s) (attempts s) (cur_host s) (cur_conn s) (cur_req s) (retries s) (timers s) (cur_timer s) (specs s) (fres s) x (event s) (pairs s) (paging s) (start s) (pstart s) (timeout s) (now s) (queue s) (pools s) (started s) (tfired s) (results s) (chains s) (swallowed s).
+  mkState (plan s) (attempts s) (cur_host s) (cur_conn s) (cur_req s) (retries s) (timers s) (cur_timer s) (specs s) (fres s) x (event s) (pairs s) (paging s) (start s) (pstart s) (timeout s) (now s) (queue s) (pools s) (started s) (tfired s) (results s) (chains s) (swallowed s) (shut s) (refreshes s).
 Definition set_event (x : bool) (s : state) : state :=
-  mkState (plan s) (attempts s) (cur_host s) (cur_conn s) (cur_req s) (retries s) (timers s) (cur_timer s) (specs s) (fres s) (fexc s) x (pairs s) (paging s) (start s) (pstart s) (timeout s) (now s) (queue s) (pools s) (started s) (tfired s) (results s) (chains s) (swallowed s).
+  mkState (plan s) (attempts s) (cur_host s) (cur_conn s) (cur_req s) (retries s) (timers s) (cur_timer s) (specs s) (fres s) (fexc s) x (pairs s) (paging s) (start s) (pstart s) (timeout s) (now s) (queue s) (pools s) (started s) (tfired s) (results s) (chains s) (swallowed s) (shut s) (refreshes s).
 Definition set_pairs (x : list pair) (s : state) : state :=
-  mkState (plan s) (attempts s) (cur_host s) (cur_conn s) (cur_req s) (retries s) (timers s) (cur_timer s) (specs s) (fres s) (fexc s) (event s) x (paging s) (start s) (pstart s) (timeout s) (now s) (queue s) (pools s) (started s) (tfired s) (results s) (chains s) (swallowed s).
+  mkState (plan s) (attempts s) (cur_host s) (cur_conn s) (cur_req s) (retries s) (timers s) (cur_timer s) (specs s) (fres s) (fexc s) (event s) x (paging s) (start s) (pstart s) (timeout s) (now s) (queue s) (pools s) (started s) (tfired s) (results s) (chains s) (swallowed s) (shut s) (refreshes s).
 Definition set_paging (x : bool) (s : state) : state :=
-  mkState (plan s) (attempts s) (cur_host s) (cur_conn s) (cur_req s) (retries s) (timers s) (cur_timer s) (specs s) (fres s) (fexc s) (event s) (pairs s) x (start s) (pstart s) (timeout s) (now s) (queue s) (pools s) (started s) (tfired s) (results s) (chains s) (swallowed s).
+  mkState (plan s) (attempts s) (cur_host s) (cur_conn s) (cur_req s) (retries s) (timers s) (cur_timer s) (specs s) (fres s) (fexc s) (event s) (pairs s) x (start s) (pstart s) (timeout s) (now s) (queue s) (pools s) (started s) (tfired s) (results s) (chains s) (swallowed s) (shut s) (refreshes s).
 Definition set_start (x : Z) (s : state) : state :=
-  mkState (plan s) (attempts s) (cur_host s) (cur_conn s) (cur_req s) (retries s) (timers s) (cur_timer s) (specs s) (fres s) (fexc s) (event s) (pairs s) (paging s) x (pstart s) (timeout s) (now s) (queue s) (pools s) (started s) (tfired s) (results s) (chains s) (swallowed s).
+  mkState (plan s) (attempts s) (cur_host s) (cur_conn s) (cur_req s) (retries s) (timers s) (cur_timer s) (specs s) (fres s) (fexc s) (event s) (pairs s) (paging s) x (pstart s) (timeout s) (now s) (queue s) (pools s) (started s) (tfired s) (results s) (chains s) (swallowed s) (shut s) (refreshes s).
 Definition set_pstart (x : Z) (s : state) : state :=
-  mkState (plan s) (attempts s) (cur_host s) (cur_conn s) (cur_req s) (retries s) (timers s) (cur_timer s) (specs s) (fres s) (fexc s) (event s) (pairs s) (paging s) (start s) x (timeout s) (now s) (queue s) (pools s) (started s) (tfired s) (results s) (chains s) (swallowed s).
+  mkState (plan s) (attempts s) (cur_host s) (cur_conn s) (cur_req s) (retries s) (timers s) (cur_timer s) (specs s) (fres s) (fexc s) (event s) (pairs s) (paging s) (start s) x (timeout s) (now s) (queue s) (pools s) (started s) (tfired s) (results s) (chains s) (swallowed s) (shut s) (refreshes s).
 Definition set_timeout (x : option Z) (s : state) : state :=
-  mkState (plan s) (attempts s) (cur_host s) (cur_conn s) (cur_req s) (retries s) (timers s) (cur_timer s) (specs s) (fres s) (fexc s) (event s) (pairs s) (paging s) (start s) (pstart s) x (now s) (queue s) (pools s) (started s) (tfired s) (results s) (chains s) (swallowed s).
+  mkState (plan s) (attempts s) (cur_host s) (cur_conn s) (cur_req s) (retries s) (timers s) (cur_timer s) (specs s) (fres s) (fexc s) (event s) (pairs s) (paging s) (start s) (pstart s) x (now s) (queue s) (pools s) (started s) (tfired s) (results s) (chains s) (swallowed s) (shut s) (refreshes s).
 Definition set_now (x : Z) (s : state) : state :=
-  mkState (plan s) (attempts s) (cur_host s) (cur_conn s) (cur_req s) (retries s) (timers s) (cur_timer s) (specs s) (fres s) (fexc s) (event s) (pairs s) (paging s) (start s) (pstart s) (timeout s) x (queue s) (pools s) (started s) (tfired s) (results s) (chains s) (swallowed s).
+  mkState (plan s) (attempts s) (cur_host s) (cur_conn s) (cur_req s) (retries s) (timers s) (cur_timer s) (specs s) (fres s) (fexc s) (event s) (pairs s) (paging s) (start s) (pstart s) (timeout s) x (queue s) (pools s) (started s) (tfired s) (results s) (chains s) (swallowed s) (shut s) (refreshes s).
 Definition set_queue (x : list (bool * Z)) (s : state) : state :=
-  mkState (plan s) (attempts s) (cur_host s) (cur_conn s) (cur_req s) (retries s) (timers s) (cur_timer s) (specs s) (fres s) (fexc s) (event s) (pairs s) (paging s) (start s) (pstart s) (timeout s) (now s) x (pools s) (started s) (tfired s) (results s) (chains s) (swallowed s).
+  mkState (plan s) (attempts s) (cur_host s) (cur_conn s) (cur_req s) (retries s) (timers s) (cur_timer s) (specs s) (fres s) (fexc s) (event s) (pairs s) (paging s) (start s) (pstart s) (timeout s) (now s) x (pools s) (started s) (tfired s) (results s) (chains s) (swallowed s) (shut s) (refreshes s).
 Definition set_pools (x : list (Z * pstate)) (s : state) : state :=
-  mkState (plan s) (attempts s) (cur_host s) (cur_conn s) (cur_req s) (retries s) (timers s) (cur_timer s) (specs s) (fres s) (fexc s) (event s) (pairs s) (paging s) (start s) (pstart s) (timeout s) (now s) (queue s) x (started s) (tfired s) (results s) (chains s) (swallowed s).
+  mkState (plan s) (attempts s) (cur_host s) (cur_conn s) (cur_req s) (retries s) (timers s) (cur_timer s) (specs s) (fres s) (fexc s) (event s) (pairs s) (paging s) (start s) (pstart s) (timeout s) (now s) (queue s) x (started s) (tfired s) (results s) (chains s) (swallowed s) (shut s) (refreshes s).
 Definition set_started (x : bool) (s : state) : state :=
-  mkState (plan s) (attempts s) (cur_host s) (cur_conn s) (cur_req s) (retries s) (timers s) (cur_timer s) (specs s) (fres s) (fexc s) (event s) (pairs s) (paging s) (start s) (pstart s) (timeout s) (now s) (queue s) (pools s) x (tfired s) (results s) (chains s) (swallowed s).
+  mkState (plan s) (attempts s) (cur_host s) (cur_conn s) (cur_req s) (retries s) (timers s) (cur_timer s) (specs s) (fres s) (fexc s) (event s) (pairs s) (paging s) (start s) (pstart s) (timeout s) (now s) (queue s) (pools s) x (tfired s) (results s) (chains s) (swallowed s) (shut s) (refreshes s).
 Definition set_tfired (x : bool) (s : state) : state :=
-  mkState (plan s) (attempts s) (cur_host s) (cur_conn s) (cur_req s) (retries s) (timers s) (cur_timer s) (specs s) (fres s) (fexc s) (event s) (pairs s) (paging s) (start s) (pstart s) (timeout s) (now s) (queue s) (pools s) (started s) x (results s) (chains s) (swallowed s).
+  mkState (plan s) (attempts s) (cur_host s) (cur_conn s) (cur_req s) (retries s) (timers s) (cur_timer s) (specs s) (fres s) (fexc s) (event s) (pairs s) (paging s) (start s) (pstart s) (timeout s) (now s) (queue s) (pools s) (started s) x (results s) (chains s) (swallowed s) (shut s) (refreshes s).
 Definition set_results (x : list (Z * Z)) (s : state) : state :=
-  mkState (plan s) (attempts s) (cur_host s) (cur_conn s) (cur_req s) (retries s) (timers s) (cur_timer s) (specs s) (fres s) (fexc s) (event s) (pairs s) (paging s) (start s) (pstart s) (timeout s) (now s) (queue s) (pools s) (started s) (tfired s) x (chains s) (swallowed s).
+  mkState (plan s) (attempts s) (cur_host s) (cur_conn s) (cur_req s) (retries s) (timers s) (cur_timer s) (specs s) (fres s) (fexc s) (event s) (pairs s) (paging s) (start s) (pstart s) (timeout s) (now s) (queue s) (pools s) (started s) (tfired s) x (chains s) (swallowed s) (shut s) (refreshes s).
 Definition set_chains (x : list (list Z * bool)) (s : state) : state :=
-  mkState (plan s) (attempts s) (cur_host s) (cur_conn s) (cur_req s) (retries s) (timers s) (cur_timer s) (specs s) (fres s) (fexc s) (event s) (pairs s) (paging s) (start s) (pstart s) (timeout s) (now s) (queue s) (pools s) (started s) (tfired s) (results s) x (swallowed s).
+  mkState (plan s) (attempts s) (cur_host s) (cur_conn s) (cur_req s) (retries s) (timers s) (cur_timer s) (specs s) (fres s) (fexc s) (event s) (pairs s) (paging s) (start s) (pstart s) (timeout s) (now s) (queue s) (pools s) (started s) (tfired s) (results s) x (swallowed s) (shut s) (refreshes s).
 Definition set_swallowed (x : Z) (s : state) : state :=
-  mkState (plan s) (attempts s) (cur_host s) (cur_conn s) (cur_req s) (retries s) (timers s) (cur_timer s) (specs s) (fres s) (fexc s) (event s) (pairs s) (paging s) (start s) (pstart s) (timeout s) (now s) (queue s) (pools s) (started s) (tfired s) (results s) (chains s) x.
+  mkState (plan s) (attempts s) (cur_host s) (cur_conn s) (cur_req s) (retries s) (timers s) (cur_timer s) (specs s) (fres s) (fexc s) (event s) (pairs s) (paging s) (start s) (pstart s) (timeout s) (now s) (queue s) (pools s) (started s) (tfired s) (results s) (chains s) x (shut s) (refreshes s).
+Definition set_shut (x : bool) (s : state) : state :=
+  mkState (plan s) (attempts s) (cur_host s) (cur_conn s) (cur_req s) (retries s) (timers s) (cur_timer s) (specs s) (fres s) (fexc s) (event s) (pairs s) (paging s) (start s) (pstart s) (timeout s) (now s) (queue s) (pools s) (started s) (tfired s) (results s) (chains s) (swallowed s) x (refreshes s).
+Definition set_refreshes (x : nat) (s : state) : state :=
+  mkState (plan s) (attempts s) (cur_host s) (cur_conn s) (cur_req s) (retries s) (timers s) (cur_timer s) (specs s) (fres s) (fexc s) (event s) (pairs s) (paging s) (start s) (pstart s) (timeout s) (now s) (queue s) (pools s) (started s) (tfired s) (results s) (chains s) (swallowed s) (shut s) x.
